@@ -220,6 +220,7 @@ def make_scenario(seed, i):
                  "style": rng.choice(["inferred", "explicit", "variadic", "inferred-decorated", "inferred-method", "inferred-default", "partial", "callable-object"])}
     # the Python predicates are registered before (True) or after the script is loaded: the order is the user's choice
     sc["register_first"] = rng.random() < 0.5
+    sc["dyn_first"] = bool(sc["dyn"]) and rng.random() < 0.35
     return untup(sc)
 
 
@@ -400,6 +401,11 @@ def run_swap(sc, out):
     swp = RealEngine()
     entered = [0]
     try:
+        if sc.get("dyn_first"):
+            # the dynamic facts are there BEFORE anything is loaded or registered: defining a predicate (either way) leaves them alone
+            for how, t in sc["dyn"]:
+                for eng in (ref, base, swp):
+                    getattr(eng, how)(tup(t))
         common.timed(load, base, program)
         stripped = gen.strip_predicates(program, keys)
         if sc.get("register_first"):
@@ -424,7 +430,7 @@ def run_swap(sc, out):
 
     for phase in (1, 2):
         if phase == 2:
-            if not sc["dyn"]:
+            if not sc["dyn"] or sc.get("dyn_first"):
                 break
             for how, t in sc["dyn"]:
                 t = tup(t)
